@@ -175,3 +175,11 @@ Fixpoint list2l (l : list complex) : sellist := match l with [] => LNil | x :: r
 Definition nestx_ok (c : sellist * sellist * sellist) : bool :=
   let '(parents, child, out) := c in sl_eqb (list2l (lower_expand parents child)) out.
 Definition check_nestx := mismatches nestx_ok.
+(* the selector semantics against the cascade oracle's matcher *)
+Fixpoint lb_eqb (a b : list bool) : bool :=
+  match a, b with [] , [] => true | x :: r, y :: r' => Bool.eqb x y && lb_eqb r r' | _, _ => false end.
+Definition nestsem_ok (c : list node * sellist * complex * list bool) : bool :=
+  let '(d, parents, cx, want) := c in
+  let D := tree_dom d in
+  lb_eqb (map (matches D (tab (size D) (ok_l D [] parents)) cx) (seq 0 (size D))) want.
+Definition check_nestsem := mismatches nestsem_ok.
